@@ -17,9 +17,10 @@ PROPS = {
     'C02': {
         'title': 'Typestate API mirrors the transition relation at compile time',
         'level_text': "Proof over the emitted impl blocks (C02.method_exists_iff, method_types, new_only_initial, accessor_only_own_state): the method of e is found on M<s> iff delta_M(s,e) is defined, it is the method generated for that edge with Ok type M<target> and Err type (Self, GuardError) in the impl of s; new is found only on the initial state's type; the infallible accessors live only in the impl block of their own state. PARTIAL: that rustc's method resolution is this lookup is the trusted Static reading, validated by T4 probes over the full (leaf x event) matrix, every new, every accessor, with Ok/Err type ascriptions (E0599/E0308 keyed by line).",
-        'level_note': 'Ties: T1 (graph), T2 regions FE MK ST IH CT SIG XA, T4 method/types/new/accessor probes.',
+        'level_note': 'Ties: T1 (graph), T2 regions FE MK ST IH CT SIG XA, T4 method/types/new/accessor probes, T3 (a typed call the declared relation has and rustc does not find, on generated machines and on escalated suspects).',
         'modules': ['SMV.Props.C02'],
         'regions': ['FE', 'MK', 'ST', 'IH', 'CT', 'SIG', 'XA'],
+        't3': ['walk'],
         't4': ['method'],
         'design_ref': 'DESIGN.md §7 C02',
     },
@@ -27,7 +28,7 @@ PROPS = {
         'title': 'Hierarchy resolution: descendants, initial child and SubstateOf agree',
         'level_text': "Proof for every nesting depth (C07.expand_super, expand_leaf, expand_undeclared, resolve_super, resolve_leaf, substate_impls, edge_iff, superstate_source; C07Decl.delta_declared: delta_M read off the definition tree; Lemmas/Hier*.lean: the imperative parser walk characterised equationally, then read under the name distinctness a successful parse guarantees): a superstate source stands for exactly the leaves nested anywhere beneath it, a superstate target resolves to its declared initial leaf or else its first-declared leaf, SubstateOf<P> is emitted for leaf l exactly for the superstates enclosing l; edges of the graph are exactly the (expanded source, resolved target) pairs with event-then-transition hook lists.",
         'level_note': 'Spec side (leavesUnder, initialLeaf, ancestorsOf) is plain structural recursion over the forest (SMV/Spec.lean). Ties: T1 (lookup/ancestors/initial_children/edges dumped from the real parser), T2 regions FE SUB IH SIG, T3 hier family, T4 substate probes (both polarities of the whole leaf x superstate matrix).',
-        'modules': ['SMV.Props.C07', 'SMV.Props.C07Decl'],
+        'modules': ['SMV.Props.C07', 'SMV.Props.C07Decl', 'SMV.Props.EndToEnd'],
         'regions': ['FE', 'SUB', 'IH', 'SIG'],
         't3': ['walk'],
         't4': ['substate', 'hier-method'],
@@ -62,9 +63,9 @@ PROPS = {
     },
     'C01': {
         'title': 'Dynamic machine follows exactly the declared transition relation',
-        'level_text': "Proof (C01.follows_delta, handle_step, new_initial; Lemmas/Handle.handleProg_eq): for every validated machine, every finite sequence of declared events, payloads, hook environment and history, the wrapper created by new is after each returning handle in exactly the state obtained by folding delta_M over the accepted events; an event without transition from the current state is refused with InvalidTransition{from: current, event} without running a hook and leaves the wrapper unchanged; current_state() always names a declared leaf. delta_M is the machine's transition graph; that the graph is the declared relation with superstates expanded/resolved is C07. Refinement (Refine.refines_spec, step_refines): under hooks whose conditions answer by a truth assignment and whose callbacks let the call through (one environment per dispatch), every dispatch of every finite sequence of declared events returns, the accepted events are exactly those of the four-line abstract machine (edge defined, guards true, unless false) and the wrapper ends in its final state.",
+        'level_text': "Proof (C01.follows_delta, handle_step, new_initial; Lemmas/Handle.handleProg_eq): for every validated machine, every finite sequence of declared events, payloads, hook environment and history, the wrapper created by new is after each returning handle in exactly the state obtained by folding delta_M over the accepted events; an event without transition from the current state is refused with InvalidTransition{from: current, event} without running a hook and leaves the wrapper unchanged; current_state() always names a declared leaf. delta_M is the machine's transition graph; that the graph is the declared relation with superstates expanded/resolved is C07. Refinement (Refine.refines_spec, step_refines): under hooks whose conditions answer by a truth assignment and whose callbacks let the call through (one environment per dispatch), every dispatch of every finite sequence of declared events returns, the accepted events are exactly those of the four-line abstract machine (edge defined, guards true, unless false) and the wrapper ends in its final state. EndToEnd.end_to_end composes this from the definition as written: a definition satisfying the rules is expanded, its abstract machine's edges are declared ones, and the wrapper created by new answers every history with the abstract machine's replies and ends in its state.",
         'level_note': 'Side conditions stated in the theorems: the machine validates, its graph is the one built from its events (what parse returns), PascalCase images of event names pairwise distinct (N1; the real code at the excluded point does not compile: duplicate enum variant). Ties: T1 (graph), T2 regions FE IH SIG CN CT EV AS DN HD CS, T3 walk/hier/abandon.',
-        'modules': ['SMV.Props.C01', 'SMV.Props.Refine'],
+        'modules': ['SMV.Props.C01', 'SMV.Props.Refine', 'SMV.Props.EndToEnd'],
         'regions': ['FE', 'IH', 'SIG', 'CN', 'CT', 'EV', 'AS', 'DN', 'HD', 'CS'],
         't3': ['walk', 'assign', 'abandon', 'susp'],
         'design_ref': 'DESIGN.md §7 C01',
